@@ -8,7 +8,7 @@ Definition conflict_guarded (c : cmd) : bool :=
   | CPush _ (Some 0%Z) _ _ _ _ _ _ _ => false            (* `-n 0` is a no-op by design *)
   | CPop _ (Some 0%Z) _ _ _ => false
   | CPush _ _ _ _ _ _ _ _ _ | CPop _ _ _ _ _ | CGoto _ _ _ _ | CFloat _ _ _ | CSink _ _ _ _
-  | CDelete _ _ _ _ _ _ _ _ | CNew _ _ _ | CRefresh | CSpill => true
+  | CDelete _ _ _ _ _ _ _ _ | CNew _ _ _ | CRefresh | CSpill | CSquash _ _ _ _ => true
   | _ => false
   end.
 
